@@ -832,9 +832,16 @@ def r7(ctx: Ctx, m):
   if not sites:
     raise AnalysisError(f'{rule}: put() no longer calls self.put_nowait')
   bad = None
+  # plain local copies of the argument (`item = value`) name the same object
+  same = {val}
+  for _ in range(2):
+    for x in walk_no_nested(fi.node):
+      if isinstance(x, ast.Assign) and len(x.targets) == 1 and isinstance(x.targets[0], ast.Name) and isinstance(x.value, ast.Name) \
+          and x.value.id in same:
+        same.add(x.targets[0].id)
   for n in sites:
     c = calls_method(n, 'put_nowait')[0]
-    if not (len(c.args) == 1 and isinstance(c.args[0], ast.Name) and c.args[0].id == val):
+    if not (len(c.args) == 1 and isinstance(c.args[0], ast.Name) and c.args[0].id in same):
       bad = 'put_nowait is not called with put()\'s own argument'
     reach = g.reachable([s for s, l in n.succ if l == 'next'],
                         edge_ok=cfgm.only_normal, include_src=True)
@@ -1442,6 +1449,10 @@ from mlmverif.selfcheck import B, OK  # noqa: E402
 
 _F = 'utils/iter_utils.py'
 VARIANTS = [
+    OK('put-through-a-local', 'utils/iter_utils.py',
+       "          self._put_nowait(value)\n", "          item = value\n          self._put_nowait(item)\n"),
+    OK('skip-wrapper-yields-through-a-local', 'utils/iter_utils.py',
+       "      yield next(it)\n", "      value = next(it)\n      yield value\n"),
     B('multiplex-queue-without-a-declared-producer-count', 'utils/iter_utils.py',
       "      max_enqueuer=len(input_iterators),\n", "", 'R-C04-25'),
     B('async-batch-end-of-stream-without-values', 'utils/iter_utils.py',
